@@ -570,6 +570,78 @@ def check_dyn(case):
     shutil.rmtree(tmp, ignore_errors=True)
 
 
+LATEDYN_PLACES = ['bare', 'list', 'tuple', 'dictvalue', 'dictkey', 'dictkey-tuple', 'nested']
+
+
+def _ld_norm(v):
+  """A value with its references named by what they refer to (scopes, target object, evaluated or
+  not), not by how the current registration mode spells them."""
+  if isinstance(v, gin.config.ConfigurableReference):
+    return ('ref', tuple(v.scopes), v.configurable.wrapped.__qualname__, bool(v.evaluate))
+  if isinstance(v, dict):
+    return ('dict', sorted(((_ld_norm(k), _ld_norm(x)) for k, x in v.items()), key=repr))
+  if isinstance(v, (list, tuple)):
+    return (type(v).__name__, [_ld_norm(x) for x in v])
+  return v
+
+
+def check_latedyn(case):
+  """Bindings made under static registration whose values hold references; dynamic registration is
+  switched on afterwards (a later file opens with the dynamic_registration import).  The config
+  string must still restore every one of them ("with or without dynamic registration")."""
+  import importlib, os, shutil, sys, tempfile  # pylint: disable=g-import-not-at-top,multiple-imports
+  tmp = tempfile.mkdtemp(prefix='c06-')
+  try:
+    for rel, src in DYN_FILES.items():
+      path = os.path.join(tmp, rel)
+      os.makedirs(os.path.dirname(path), exist_ok=True)
+      with open(path, 'w') as f:
+        f.write(src)
+    sys.path.insert(0, tmp)
+    other = importlib.import_module('c06a.other')
+    gin.external_configurable(other.build, module='c06a.other')
+    gin.external_configurable(other.K, module='c06a.other')
+    lines, places = [], {}
+    for param, target, scope, evaluate, place in case['bindings']:
+      ref = '@%s%s%s' % (scope + '/' if scope else '', target, '()' if evaluate else '')
+      if place in ('dictkey', 'dictkey-tuple') and evaluate and target.endswith('K'):
+        ref = ref[:-2]          # an evaluated K() is a fresh unhashable-by-value object; keep the key a reference
+      text = {'bare': ref, 'list': '[%s, 1]' % ref, 'tuple': '(%s,)' % ref,
+              'dictvalue': "{'k': %s}" % ref, 'dictkey': '{%s: 1}' % ref,
+              'dictkey-tuple': '{(%s, 0): 2}' % ref, 'nested': "[{'k': (%s, [0])}]" % ref}[place]
+      lines.append('c06a.other.build.%s = %s' % (param, text))
+      places[param] = place
+    gin.parse_config('\n'.join(lines) + '\n')
+
+    def shown():
+      # query_parameter hands out the stored value itself (get_bindings would evaluate references)
+      return {prm: _ld_norm(gin.query_parameter('c06a.other.build.' + prm)) for prm in places}
+    gin.parse_config('from __gin__ import dynamic_registration\n')
+    s1 = gin.config_str()
+    want = shown()
+    gin.clear_config()
+    try:
+      gin.parse_config(s1)
+    except Exception as e:  # pylint: disable=broad-except
+      raise Violation('config_str-does-not-parse', f'{type(e).__name__}: {e}\n{s1}')
+    got = {}
+    for prm in places:
+      try:
+        got[prm] = _ld_norm(gin.query_parameter('c06a.other.build.' + prm))
+      except ValueError:
+        got[prm] = 'MISSING'
+    require(got == want, 'round-trip-value',
+            lambda: f'bindings made before dynamic registration was switched on: after re-parse '
+                    f'{got}, expected {want}\n--- bindings:\n' + '\n'.join(lines) +
+                    f'\n--- config_str:\n{s1}')
+    labels = {'kind:latedyn', 'nontrivial'} | {'latedyn:' + pl for pl in places.values()}
+    return ok(labels, True)
+  finally:
+    if tmp in sys.path:
+      sys.path.remove(tmp)
+    shutil.rmtree(tmp, ignore_errors=True)
+
+
 def _selector_of(obj):
   """Complete selector of a registered object, through public API only: the unique name under
   which gin.get_configurable(name) returns the same configurable."""
@@ -587,6 +659,8 @@ def _selector_of(obj):
 def check_case(case):
   if case.get('kind') == 'dynamic':
     return check_dyn(case)
+  if case.get('kind') == 'latedyn':
+    return check_latedyn(case)
   labels = set()
   width, indent = case['width'], case['indent']
   for v in [b[3] for b in case['bindings']] + [m[1] for m in case['macros']]:
@@ -866,8 +940,35 @@ def _dyn_case(draw):
   return {'kind': 'dynamic', 'imports': imports, 'bindings': bindings, 'refs': refs}
 
 
+@st.composite
+def _latedyn_case(draw):
+  bindings = draw(st.lists(
+      st.tuples(st.sampled_from(['x', 'y']), st.sampled_from(['c06a.other.build', 'c06a.other.K', 'other.build', 'other.K']),
+                st.sampled_from(['', '', 's1', 's2/t']), st.booleans(),
+                st.sampled_from(LATEDYN_PLACES)).map(list),
+      min_size=1, max_size=2, unique_by=lambda b: b[0]))
+  return {'kind': 'latedyn', 'bindings': bindings}
+
+
 def strategy():
+  # the late-dynamic variant is small enough to be swept exhaustively (SWEEPS below)
   return st.one_of(_static_case(), _static_case(), _static_case(), _dyn_case())
+
+
+def _latedyn_sweep(tier):
+  import itertools  # pylint: disable=g-import-not-at-top
+  targets = ['c06a.other.build', 'c06a.other.K', 'other.build', 'other.K']
+  cases = [{'kind': 'latedyn', 'bindings': [['x', t, sc, ev, pl]]}
+           for t, sc, ev, pl in itertools.product(targets, ['', 's1', 's2/t'], [False, True],
+                                                  LATEDYN_PLACES)]
+  # two bindings at once: every pair of placements
+  cases += [{'kind': 'latedyn', 'bindings': [['x', 'c06a.other.build', '', False, a],
+                                             ['y', 'other.K', 's1', True, b]]}
+            for a, b in itertools.product(LATEDYN_PLACES, LATEDYN_PLACES)]
+  return cases, True
+
+
+SWEEPS = {'latedyn': _latedyn_sweep}
 
 
 @st.composite
